@@ -13,7 +13,7 @@ BASE = (">", "ins", "op", "pe", "peret", "dispatch", "panic", "abort", "end", "l
 READS = {
     "C01": BASE + ("cb", "cbret"),
     "C02": BASE + ("cb", "cbret"),
-    "C05": BASE + ("cb", "cbret"),
+    "C05": BASE + ("cb", "cbret", "st"),
     "C06": BASE + ("cb", "drop", "st"),
     "C07": BASE + ("cb", "st"),
     "C08": BASE,
